@@ -755,6 +755,11 @@ namespace Pistache::Http
 
     std::streamsize ResponseStream::write(const char* data, std::streamsize sz)
     {
+        // A chunk of size zero is the last-chunk marker of the chunked coding:
+        // writing nothing must not terminate the body
+        if (sz <= 0)
+            return 0;
+
         std::ostream os(&buf_);
         os << std::hex << sz << crlf;
         os.write(data, sz);
